@@ -23,6 +23,10 @@ func main() {
 		firstUseChild(os.Args[2:])
 		return
 	}
+	if len(os.Args) >= 2 && os.Args[1] == "child-race" {
+		raceChild(os.Args[2:])
+		return
+	}
 	if len(os.Args) >= 3 && os.Args[1] == "child-probe" {
 		probeChild(os.Args[2])
 		return
